@@ -230,6 +230,19 @@ def loop_range(loop, before=()):
     """counting loop -> dict(var, lo, hi (inclusive, Expr), step (+1/-1), cond node) or None.
     `before`: statements preceding the loop in its block (searched backwards for the initial value when the loop
     itself has no init part, i.e. a normalised while loop)."""
+    if loop.get("kind") == "WhileStmt":
+        # counting while loop: exactly one top-level statement of the body steps a variable of the condition
+        cond, body = loop["inner"][0], loop["inner"][1]
+        from .cnorm import _step_of, var_refs
+        st = ceval.body_stmts(body)
+        steps = [x for x in st if x.get("kind") in ("UnaryOperator", "CompoundAssignOperator", "BinaryOperator") and _step_of(x) in var_refs(cond)]
+        if len(steps) != 1 or len(steps_of(loop, _step_of(steps[0]))) != 1:
+            return None
+        pseudo = {"kind": "ForStmt", "inner": [{}, {}, cond, steps[0], body]}
+        r = loop_range(pseudo, before)
+        if r is not None:
+            r["step_in_body"] = True
+        return r
     if loop.get("kind") != "ForStmt":
         return None
     init, _cv, cond, inc, body = loop["inner"]
